@@ -85,6 +85,48 @@ class SimLock(object):
         self.release()
 
 
+def seam_point(site):
+    s = CURRENT
+    if s is not None:
+        s.seam_point(site)
+
+
+class SchemaProxy(object):
+    """Stand-in for the Python-visible surface of lxml.etree.XMLSchema.  The
+    validation itself is lxml's; what is re-stated in Python is the glue
+    around it (lxml's _Validator.assertValid / validate / error_log), because
+    the real thing releases the GIL while validating: another thread can run
+    between the C-level validation and the moment its outcome is read from the
+    validator's -- shared -- error log.  seam_point() marks those places."""
+
+    def __init__(self, real):
+        self._real = real
+
+    def __call__(self, doc):
+        seam_point('lxml:XMLSchema.__call__:enter')
+        ok = self._real(doc)    # clears the shared log, validates
+        seam_point('lxml:XMLSchema.__call__:leave')
+        return ok
+
+    validate = __call__
+
+    @property
+    def error_log(self):
+        return self._real.error_log
+
+    def assertValid(self, doc):
+        from lxml import etree
+        if not self(doc):
+            log = self._real.error_log
+            msg = log[0].message if len(log) else \
+                                        'Document does not comply with schema'
+            raise etree.DocumentInvalid(msg, log)
+
+    def assert_(self, doc):
+        if not self(doc):
+            raise AssertionError(self._real.error_log.last_error)
+
+
 def _make_threading_shim():
     """A stand-in for the `threading` module as seen by spyne modules: Lock
     and RLock build SimLocks, everything else is the real thing."""
@@ -158,6 +200,8 @@ class Scheduler(object):
             self.replay = dict(((d[0], d[1]), d[2]) for d in plan['replay'])
             self.forced = list(plan.get('forced', ()))
         self._region_cache = {}
+        self.seam_steps = 0
+        self.p_seam = plan.get('p_seam', 0.3)
         self.opcodes = bool(plan.get('opcodes'))
         self.p_instr = plan.get('p_instr', self.p / 3.0)
         self._instr_codes = []
@@ -357,6 +401,34 @@ class Scheduler(object):
                 _mon.set_local_events(TOOL, code, _mon.events.INSTRUCTION)
                 self._instr_codes.append(code)
         return r
+
+    def seam_point(self, site):
+        """A pre-emption point inside a stand-in for non-Python code (a C
+        library that releases the GIL): counted and replayed like a line."""
+        me = self.by_ident.get(_get_ident())
+        if me is None or me != self.current:
+            return
+        if self.aborted:
+            raise SimAbort()
+        self.step += 1
+        self.local[me] += 1
+        self.seam_steps += 1
+        nxt = None
+        if self.replay is not None:
+            to = self.replay.get((me, self.local[me]))
+            if to is not None:
+                cand = self._runnable(exclude=me)
+                if cand:
+                    nxt = to if to in cand else cand[0]
+        elif self.rng is not None and (self.p > 0 or self.pct) and \
+                                              self.rng.random() < self.p_seam:
+            cand = self._runnable(exclude=me)
+            if cand:
+                nxt = self.rng.choice(cand)
+        if nxt is not None:
+            self.decisions.append([me, self.local[me], nxt, site])
+            self.region_hits[site] = self.region_hits.get(site, 0) + 1
+            self._handoff(me, nxt)
 
     def _on_instr(self, code, offset):
         me = self.by_ident.get(_get_ident())
